@@ -2618,12 +2618,6 @@ func (db *DB) checkpointWithExecutor(ctx context.Context, mode string, exec *syn
 		exec.applySyncResult(result)
 	}
 
-	frameSize := int64(db.pageSize + WALFrameHeaderSize)
-	preCheckpointFrameN := 0
-	if exec.state.lastSyncedWALOffset > WALHeaderSize {
-		preCheckpointFrameN = int((exec.state.lastSyncedWALOffset - WALHeaderSize) / frameSize)
-	}
-
 	// Execute checkpoint and immediately issue a write to the WAL to ensure
 	// a new page is written.
 	db.setSyncDiagPhase(diagPhaseCheckpointExec,
@@ -2631,8 +2625,7 @@ func (db *DB) checkpointWithExecutor(ctx context.Context, mode string, exec *syn
 			s.checkpointMode = mode
 			s.lastSyncedWALOffset = exec.state.lastSyncedWALOffset
 		})
-	walFrameN, err := db.execCheckpoint(ctx, mode)
-	if err != nil {
+	if _, err := db.execCheckpoint(ctx, mode); err != nil {
 		return false, err
 	}
 
@@ -2672,22 +2665,14 @@ func (db *DB) checkpointWithExecutor(ctx context.Context, mode string, exec *syn
 		return true, nil
 	}
 
-	// A successful TRUNCATE checkpoint always reports zero frames because
-	// the WAL is reset before the counters are read, so the comparison
-	// below can never prove that no commits landed between the sealed
-	// sync and the checkpoint taking the writer lock. Those commits are
-	// backfilled and truncated unseen, so TRUNCATE must take the boundary
-	// snapshot unconditionally.
-	if mode != CheckpointModeTruncate && walFrameN <= preCheckpointFrameN {
-		result, err = db.verifyAndSyncWithExecutor(ctx, true, exec, 0)
-		if err != nil {
-			return false, fmt.Errorf("cannot copy wal after checkpoint: %w", err)
-		}
-		exec.applySyncResult(result)
-		exec.state.syncedSinceCheckpoint = false
-		return true, nil
-	}
-
+	// Take the boundary snapshot whenever a FULL, RESTART or TRUNCATE
+	// checkpoint restarted the WAL. The read lock is released around the
+	// PRAGMA, so commits can land between the sealed sync and the checkpoint,
+	// or between the checkpoint and the re-acquired read lock, and be
+	// backfilled and removed unseen - by our own checkpoint or by a checkpoint
+	// of the application. The frame count reported by the PRAGMA cannot rule
+	// that out: a TRUNCATE always reports zero frames, and so does any
+	// checkpoint that runs after another connection reset the WAL.
 	// Start a transaction. This will be promoted immediately after.
 	db.setSyncDiagPhase(diagPhaseCheckpointSnapshotBoundaryLock,
 		func(s *diagState) {
